@@ -475,6 +475,26 @@ func (c *Ctx) cod9(which map[string]bool) {
 			}
 		}
 	}
+	if which["COD-10"] {
+		// a name that is skipped does not fail the listing: what List returns
+		// as its error is decided on every path — nil, or a failure the path
+		// has established — never the leftover of a skipped entry
+		if list := c.Fn("COD-10", "(fileSystem).List"); list != nil {
+			a := c.acc("COD-10", list, "returned-error-decided-on-the-path(no-leftover-of-a-skipped-name)")
+			for _, p := range c.Paths("COD-10", list) {
+				if p.End != pathx.KReturn {
+					continue
+				}
+				last := len(p.Events) - 1
+				if retErr(p, last) == triUnknown {
+					a.fail(p, last, "List returns %s as its error on a path that has not decided it: after the scan this is whatever the last skipped name left behind (a parse failure of a foreign file name), and AdoptSession fails on a directory with a stray file", Expr(p.Events[last].Results[len(p.Events[last].Results)-1]))
+				} else {
+					a.pass()
+				}
+			}
+			a.done(2, "every return carries nil or an error the path established")
+		}
+	}
 	if which["COD-11"] {
 		flag := c.constInt("remoteIDKeyFlag")
 		n := 0
